@@ -196,7 +196,7 @@ def _run_case(case):
 
 @st.composite
 def history(draw):
-    h, w = draw(st.one_of(st.integers(2, 6), st.integers(2, 6), st.sampled_from([10, 24]))), draw(st.one_of(st.integers(3, 8), st.integers(3, 8), st.sampled_from([20, 40])))
+    h, w = draw(st.one_of(st.integers(1, 6), st.integers(2, 6), st.sampled_from([10, 24]))), draw(st.one_of(st.integers(1, 8), st.integers(3, 8), st.sampled_from([20, 40])))
     nhist = draw(st.sampled_from([0, 0, 1, 2, h - 1, h - 1, h, h + 1, h + 4, max(h - 2, 0)]))
     case = {
         "h": h, "w": w,
